@@ -6,7 +6,12 @@ use super::*;
 use crate::builders::fakes::{fake_bootstrap_witness, fake_raw_key_public, fake_raw_key_sig};
 use crate::fees;
 use crate::utils;
-use std::collections::{BTreeMap, BTreeSet, HashMap, HashSet};
+use std::collections::{BTreeMap, BTreeSet};
+#[cfg(not(feature = "verif-hooks"))]
+use std::collections::{HashMap, HashSet};
+#[cfg(feature = "verif-hooks")]
+#[allow(unused_imports)]
+use crate::verif_hooks::{HashMap, HashSet, SimNew};
 
 #[cfg(not(feature = "verif-hooks"))]
 type SelectionRng = rand::rngs::ThreadRng;
